@@ -29,6 +29,30 @@ def fold_function(prog: Program, fn: FuncInfo, budget: int = 200000, args: Dict[
     steps = [0]
 
     def ev(e):
+        # self._helper(args) / cls._helper(args) inside the folded method: the helper is folded with the evaluated arguments
+        if fn.cls is not None and any(isinstance(x, ast.Call) and isinstance(x.func, ast.Attribute) and isinstance(x.func.value, ast.Name)
+                                      and x.func.value.id in ("self", "cls") and prog.find_method(fn.cls, x.func.attr) is not None for x in ast.walk(e)):
+            import copy
+
+            class _Calls(ast.NodeTransformer):
+                def visit_Call(inner, n):
+                    n = inner.generic_visit(n)
+                    if isinstance(n.func, ast.Attribute) and isinstance(n.func.value, ast.Name) and n.func.value.id in ("self", "cls") and not n.keywords:
+                        m = prog.find_method(fn.cls, n.func.attr)
+                        if m is not None and not m.is_async and steps[0] < budget:
+                            static = any(isinstance(d, ast.Name) and d.id == "staticmethod" for d in m.node.decorator_list)
+                            vals = [prog.consteval(a, fn.module, env) for a in n.args]
+                            names = list(m.params) if static else list(m.params[1:])
+                            if len(vals) == len(names):
+                                args = dict(zip(names, vals))
+                                if not static:
+                                    args[m.params[0]] = env.get(n.func.value.id)
+                                steps[0] += 50
+                                key = "__fold_call_%d" % len(env)
+                                env[key] = fold_function(prog, m, budget=budget - steps[0], args=args)
+                                return ast.copy_location(ast.Name(id=key, ctx=ast.Load()), n)
+                    return n
+            e = ast.fix_missing_locations(_Calls().visit(copy.deepcopy(e)))
         return prog.consteval(e, fn.module, env)
 
     def store(t, v):
@@ -42,6 +66,8 @@ def fold_function(prog: Program, fn: FuncInfo, budget: int = 200000, args: Dict[
                 store(a, b)
         elif isinstance(t, ast.Subscript) and isinstance(t.value, ast.Name) and isinstance(env.get(t.value.id), (list, dict)):
             env[t.value.id][ev(t.slice)] = v
+        elif isinstance(t, ast.Attribute) and isinstance(t.value, ast.Name) and getattr(env.get(t.value.id), "_fold_mutable", False):
+            setattr(env[t.value.id], t.attr, v)          # self.x = v on a stand-in object the caller handed in
         else:
             raise NotConst("store to %s" % ast.dump(t)[:40])
 
